@@ -1047,6 +1047,7 @@ fn main() {
     match args.get(1).map(|s| s.as_str()) {
         Some("header") => print!("{}", header()),
         Some("boundary") => boundary::run(),
+        Some("cycles") => boundary::cycles(),
         Some("run") => {
             let text = std::fs::read_to_string(&args[2]).expect("read ops file");
             print!("{}", header());
